@@ -8,6 +8,7 @@
 pub mod monitors;
 pub mod receiver;
 pub mod recovery;
+pub mod reload;
 pub mod regmon;
 pub mod stream;
 pub mod c04_shell;
@@ -80,6 +81,7 @@ pub struct Sim {
     pub recv_buf: Vec<u8>,
     pub pending_ips: Option<SmallVec<IpAddr, 4>>,
     pub io_errors: Vec<String>,
+    pub defer_apply: bool,
 }
 
 pub fn link_ip(i: usize) -> IpAddr {
@@ -164,6 +166,7 @@ impl Sim {
             recv_buf: vec![0u8; 1500],
             pending_ips: None,
             io_errors: Vec::new(),
+            defer_apply: false,
         }
     }
 
@@ -256,14 +259,34 @@ impl Sim {
             conn.cc_target_bps = s.map(|s| s.target_bps).unwrap_or(0);
             conn.loss_degraded = s.map(|s| s.loss_degraded).unwrap_or(false);
         }
+        if !self.defer_apply {
+            self.apply_pending();
+        }
+        r.map_err(|e| e.to_string())
+    }
+
+    /// The tail of the housekeeping branch: apply a queued IP-list change through the
+    /// production `apply_connection_changes`. Returns whether a change was applied.
+    pub fn apply_pending(&mut self) -> bool {
         if let Some(ips) = self.pending_ips.take() {
             let port = self.rx_addr.port();
             let Sim { conns, conn_io, last_selected_idx, seq_tracker, binder_dyn, .. } = self;
             rt::block_on(async {
                 apply_connection_changes(conns, conn_io, &ips, "127.0.0.1", port, last_selected_idx, seq_tracker, binder_dyn).await;
             });
+            return true;
         }
-        r.map_err(|e| e.to_string())
+        false
+    }
+
+    /// The SIGHUP branch: evaluate the ips file with the production guard and queue the
+    /// change for the next housekeeping arm (or refuse it and touch nothing).
+    pub fn arm_sighup(&mut self, ips_file: &str) -> vh::IpReload {
+        let r = vh::analyze_ip_reload(ips_file);
+        if let vh::IpReload::Apply { ips, .. } = &r {
+            self.pending_ips = Some(ips.clone());
+        }
+        r
     }
 
     fn pump_instant(&mut self) {
